@@ -55,4 +55,16 @@ def symbolic_all_any(I, gnode, frame, seq, is_all, node):
 
 
 def symbolic_sum(I, gnode, frame, seq, node):
-    raise OutOfSubset("sum over a symbolic sequence (no fold summary)")
+    """sum(<genexp over a symbolic list>) = lsum of the pointwise-defined list of terms (the element expression must be
+    pure); sums of ints are promoted to reals when the terms are reals"""
+    from .loops import eval_listcomp
+    terms = eval_listcomp(I, gnode, frame)
+    return slist_sum(I, terms, node)
+
+
+def slist_sum(I, terms, node):
+    if terms.kind != 'slist' or terms.extra['elem'] not in ('real', 'int'):
+        raise OutOfSubset(f"sum of {terms.kind}")
+    lt = TY.list_theory(TY.smt_sort(terms.extra['elem']))
+    r = lt.lsum(terms.t)
+    return mk_real(r) if terms.extra['elem'] == 'real' else mk_int(r)
